@@ -6,6 +6,7 @@ CONSTANTS
   StoreMode = "store"
   HitMode = "identity"
   Random = FALSE
+  FbMode = "faithful"
 INIT Init
 NEXT Next
 INVARIANT NotSharedArgs
